@@ -81,6 +81,17 @@ CHECKS.update({
    note="Absence of races/deadlocks is not established. No ThreadSanitizer build, no lock-site hooks, no load_shared_library path (no cdylib)."),
 })
 
+CHECKS.update({
+ "C11": dict(cat="exploration", design="DESIGN.md §3 C11",
+   technique="property-based testing: generated schema trees with layout annotations + single layout-relevant mutations (metamorphic oracle on Schema::layout_compatible), plus generated definition pairs with equal wire format and different memory representation",
+   text="Part A: for generated, fully annotated schema trees every single layout-relevant mutation (size, alignment, offset changed or unknown, discriminant width, explicit-repr flag, Vec/String layout, counts, primitive kind, array length) at any depth must make layout_compatible false in both directions, and trees with anything unknown must be incompatible with themselves. Derived part: schemas of generated definition pairs that pass the wire gate but differ in memory (explicit discriminant values) must not be layout compatible. Cross-version by-reference passing is exercised end to end by C10.",
+   note="NOT covered: an implementation compiled by another compiler / with -Zrandomize-layout loaded through load_shared_library (no cdylib harness was built); 'different compiler' is therefore only represented at the schema level."),
+ "C13": dict(cat="exploration", design="DESIGN.md §3 C13",
+   technique="property-based testing with an own generator over all schema node kinds, differential against an independent reference grammar (formats 0/1/2), metamorphic completeness of diff_schema, byte-flip fuzzing of schema sections, exhaustive small scope",
+   text="Generated schema values (all node kinds incl. traits, closures, futures, recursion markers) are written by the library at formats 1 and 2 (bytes must equal the reference grammar) and read back (equal; format 1 modulo receiver/async), reference format-0 bytes must decode to the schema minus layout annotations, diff_schema(s,s) must be None, every single wire-altering mutation must be reported in both directions, and corrupted schema bytes must never panic. A reduced alphabet is enumerated exhaustively up to 3 levels.",
+   note="Format 0 is reconstructed from the documented 0.16->0.17 expansion; mutations inside trait definitions are not asserted (not listed by the property)."),
+})
+
 NOT_YET = {
 }
 
